@@ -5,6 +5,7 @@ import Mimium.Model.SchedMem
 import Mimium.Proofs.SchedMem
 import Mimium.Gen.Sched
 import Mimium.Proofs.HeapStdQueue
+import Mimium.Proofs.SchedHeap
 /-!
 # C11 — scheduled tasks run exactly once at exactly their sample time
 
@@ -231,7 +232,7 @@ theorem C11_wasm_mem_slot_consistent_partial {σ H : Type} (ops : HeapOps H) (to
     ∀ (t : Nat) (ht : t < (M.run ops env n s0).ticks.length),
       ((M.run ops env n s0).ticks[t]).execd.Perm
         ((issuedBefore (M.run ops env n s0).greqs (M.run ops env n s0).ticks t).filter (fun x => decide (x.when = t))) := by
-  obtain ⟨st', e, l, g, idl⟩ := M.run_spec hs hf hc n s0
+  obtain ⟨st', e, l, g, idl⟩ := M.run_spec hs.toI hf hc n s0
   refine ⟨by simp [e], l, idl, ?_⟩
   intro t ht
   have := idl.onTime t ht
@@ -330,6 +331,182 @@ example : runStd [.push ⟨3, 0⟩, .push ⟨1, 1⟩, .pop, .push ⟨2, 2⟩, .p
 example : IsHeap (stdPush ⟨1, 7⟩ (stdPush ⟨2, 8⟩ #[])) :=
   C11_heap_push_invariant _ _ (C11_heap_push_invariant _ _ isHeap_empty)
 example : stdPop (stdPush ⟨1, 7⟩ (stdPush ⟨2, 8⟩ #[])) = some (⟨1, 7⟩, #[⟨2, 8⟩]) := by decide +kernel
+
+
+/-! ## The C11 theorems with the real heap algorithm inside (`…_on_binary_heap`)
+
+`Vm.runH ops` / `W.runH ops` (`Model/SchedHeap.lean`) are the two scheduler loops of `Model/Sched.lean` written over a
+heap implementation `ops` instead of a list with a tie oracle; `M.run ops` is the WASM side with closure memory.
+With `ops := stdHeap` (the literal `BinaryHeap` port) nothing about the heap is assumed any more: the port meets the
+priority-queue specification (`C11_binary_heap_meets_spec`, from the `C11_heap_*` theorems), hence every statement
+above holds for the schedulers running the real sift-up / sift-down code, whatever its tie order. -/
+
+/-- the literal `BinaryHeap` port meets the priority-queue specification used by the scheduler proofs, with contents
+`Array.toList` and representation invariant `IsHeap` (established by `new`, kept by `push` and `pop`) -/
+theorem C11_binary_heap_meets_spec : HeapSpecI stdHeap Array.toList IsHeap := stdHeap_spec
+
+/-- VM scheduler over ANY heap implementation meeting the specification: no panic, `n` samples, ideal run, invariant. -/
+theorem C11_vm_ideal_over_any_heap {σ H : Type} (ops : HeapOps H) (toList : H → List Task) (Inv : H → Prop)
+    (hs : HeapSpecI ops toList Inv) (env : Env σ) (n : Nat) (s0 : σ) (hf : env.Future) :
+    ∃ st, (Vm.runH ops env n s0).final = some st ∧ (Vm.runH ops env n s0).ticks.length = n ∧
+      Ideal env 0 (env.global s0).2 (env.global s0).1 (Vm.runH ops env n s0).ticks ∧
+      VmInvH toList Inv n ((Vm.runH ops env n s0).greqs ++ (Vm.runH ops env n s0).ticks.flatMap (·.reqs)) st := by
+  obtain ⟨st', e, l, idl, inv⟩ := Vm.runH_spec hs env n s0 hf
+  exact ⟨st', e, l, idl, by simpa using inv⟩
+
+/-- WASM scheduler (handles stable) over ANY heap implementation meeting the specification. -/
+theorem C11_wasm_ideal_over_any_heap {σ H : Type} (ops : HeapOps H) (toList : H → List Task) (Inv : H → Prop)
+    (hs : HeapSpecI ops toList Inv) (env : Env σ) (n : Nat) (s0 : σ) (hf : env.Future) :
+    ∃ st, (W.runH ops env n s0).final = some st ∧ (W.runH ops env n s0).ticks.length = n ∧
+      Ideal env 0 (env.global s0).2 (env.global s0).1 (W.runH ops env n s0).ticks ∧
+      WInvH toList Inv n ((W.runH ops env n s0).greqs ++ (W.runH ops env n s0).ticks.flatMap (·.reqs)) st := by
+  obtain ⟨st', e, l, g, idl, inv⟩ := W.runH_spec hs env n s0 hf
+  exact ⟨st', e, l, idl, by simpa [g] using inv⟩
+
+theorem C11_vm_exactly_once_on_time_on_binary_heap {σ : Type} (env : Env σ) (n : Nat) (s0 : σ) (hf : env.Future) :
+    (Vm.runH stdHeap env n s0).final.isSome ∧ (Vm.runH stdHeap env n s0).ticks.length = n ∧
+    ∀ (t : Nat) (ht : t < (Vm.runH stdHeap env n s0).ticks.length),
+      ((Vm.runH stdHeap env n s0).ticks[t]).execd.Perm
+        ((issuedBefore (Vm.runH stdHeap env n s0).greqs (Vm.runH stdHeap env n s0).ticks t).filter
+          (fun x => decide (x.when = t))) := by
+  obtain ⟨st', e, l, idl, _⟩ := Vm.runH_spec stdHeap_spec env n s0 hf
+  refine ⟨by simp [e], l, ?_⟩
+  intro t ht
+  have := idl.onTime t ht
+  simpa [issuedBefore] using this
+
+theorem C11_wasm_exactly_once_on_time_on_binary_heap {σ : Type} (env : Env σ) (n : Nat) (s0 : σ) (hf : env.Future) :
+    (W.runH stdHeap env n s0).final.isSome ∧ (W.runH stdHeap env n s0).ticks.length = n ∧
+    ∀ (t : Nat) (ht : t < (W.runH stdHeap env n s0).ticks.length),
+      ((W.runH stdHeap env n s0).ticks[t]).execd.Perm
+        ((issuedBefore (W.runH stdHeap env n s0).greqs (W.runH stdHeap env n s0).ticks t).filter
+          (fun x => decide (x.when = t))) := by
+  obtain ⟨st', e, l, g, idl, _⟩ := W.runH_spec stdHeap_spec env n s0 hf
+  refine ⟨by simp [e], l, ?_⟩
+  intro t ht
+  have := idl.onTime t ht
+  simpa [issuedBefore, g] using this
+
+theorem C11_vm_before_dsp_on_binary_heap {σ : Type} (env : Env σ) (n : Nat) (s0 : σ) (hf : env.Future) :
+    Ideal env 0 (env.global s0).2 (env.global s0).1 (Vm.runH stdHeap env n s0).ticks := by
+  obtain ⟨_, _, _, idl, _⟩ := Vm.runH_spec stdHeap_spec env n s0 hf
+  exact idl
+
+theorem C11_wasm_before_dsp_on_binary_heap {σ : Type} (env : Env σ) (n : Nat) (s0 : σ) (hf : env.Future) :
+    Ideal env 0 (env.global s0).2 (env.global s0).1 (W.runH stdHeap env n s0).ticks := by
+  obtain ⟨_, _, _, _, idl, _⟩ := W.runH_spec stdHeap_spec env n s0 hf
+  exact idl
+
+theorem C11_vm_never_early_never_late_on_binary_heap {σ : Type} (env : Env σ) (n : Nat) (s0 : σ) (hf : env.Future)
+    (t : Nat) (ht : t < (Vm.runH stdHeap env n s0).ticks.length) (x : Task)
+    (hx : x ∈ ((Vm.runH stdHeap env n s0).ticks[t]).execd) : x.when = t := by
+  have := ((C11_vm_exactly_once_on_time_on_binary_heap env n s0 hf).2.2 t ht).mem_iff.1 hx
+  simpa using (List.mem_filter.1 this).2
+
+theorem C11_wasm_never_early_never_late_on_binary_heap {σ : Type} (env : Env σ) (n : Nat) (s0 : σ) (hf : env.Future)
+    (t : Nat) (ht : t < (W.runH stdHeap env n s0).ticks.length) (x : Task)
+    (hx : x ∈ ((W.runH stdHeap env n s0).ticks[t]).execd) : x.when = t := by
+  have := ((C11_wasm_exactly_once_on_time_on_binary_heap env n s0 hf).2.2 t ht).mem_iff.1 hx
+  simpa using (List.mem_filter.1 this).2
+
+/-- explicit invariant with the array inside: it is a heap, `cur_time` is the last sample, the channel only holds
+later tasks, and array ∪ channel is exactly the multiset of issued-but-not-yet-due tasks -/
+theorem C11_vm_invariant_on_binary_heap {σ : Type} (env : Env σ) (n : Nat) (s0 : σ) (hf : env.Future) :
+    ∃ st, (Vm.runH stdHeap env n s0).final = some st ∧
+      VmInvH Array.toList IsHeap n
+        ((Vm.runH stdHeap env n s0).greqs ++ (Vm.runH stdHeap env n s0).ticks.flatMap (·.reqs)) st := by
+  obtain ⟨st, e, _, _, inv⟩ := C11_vm_ideal_over_any_heap stdHeap _ _ stdHeap_spec env n s0 hf
+  exact ⟨st, e, inv⟩
+
+theorem C11_wasm_invariant_on_binary_heap {σ : Type} (env : Env σ) (n : Nat) (s0 : σ) (hf : env.Future) :
+    ∃ st, (W.runH stdHeap env n s0).final = some st ∧
+      WInvH Array.toList IsHeap n
+        ((W.runH stdHeap env n s0).greqs ++ (W.runH stdHeap env n s0).ticks.flatMap (·.reqs)) st := by
+  obtain ⟨st, e, _, _, inv⟩ := C11_wasm_ideal_over_any_heap stdHeap _ _ stdHeap_spec env n s0 hf
+  exact ⟨st, e, inv⟩
+
+theorem C11_vm_executions_eq_requests_on_binary_heap {σ : Type} (env : Env σ) (n : Nat) (s0 : σ) (hf : env.Future)
+    (x : Task) (hx : x.when < n) :
+    ((Vm.runH stdHeap env n s0).ticks.flatMap (·.execd)).count x
+      = ((Vm.runH stdHeap env n s0).greqs ++ (Vm.runH stdHeap env n s0).ticks.flatMap (·.reqs)).count x := by
+  obtain ⟨_, _, l, idl, _⟩ := Vm.runH_spec stdHeap_spec env n s0 hf
+  simpa using idl.count_eq hf x (Nat.zero_le _) (by omega)
+
+theorem C11_wasm_executions_eq_requests_on_binary_heap {σ : Type} (env : Env σ) (n : Nat) (s0 : σ) (hf : env.Future)
+    (x : Task) (hx : x.when < n) :
+    ((W.runH stdHeap env n s0).ticks.flatMap (·.execd)).count x
+      = ((W.runH stdHeap env n s0).greqs ++ (W.runH stdHeap env n s0).ticks.flatMap (·.reqs)).count x := by
+  obtain ⟨_, _, l, g, idl, _⟩ := W.runH_spec stdHeap_spec env n s0 hf
+  simpa [g] using idl.count_eq hf x (Nat.zero_le _) (by omega)
+
+/-- both schedulers with the real heap inside execute the same multiset in every sample (programs with `ReqDet`) -/
+theorem C11_vm_wasm_same_ticks_on_binary_heap {σ : Type} (env : Env σ) (n : Nat) (s0 : σ)
+    (hf : env.Future) (hd : env.ReqDet)
+    (t : Nat) (h1 : t < (Vm.runH stdHeap env n s0).ticks.length) (h2 : t < (W.runH stdHeap env n s0).ticks.length) :
+    ((Vm.runH stdHeap env n s0).ticks[t]).execd.Perm ((W.runH stdHeap env n s0).ticks[t]).execd := by
+  obtain ⟨_, _, _, i1, _⟩ := Vm.runH_spec stdHeap_spec env n s0 hf
+  obtain ⟨_, _, _, _, i2, _⟩ := W.runH_spec stdHeap_spec env n s0 hf
+  exact Ideal.same_ticks hd i1 i2 (List.Perm.refl _) t h1 h2
+
+/-- … and the same multiset as the oracle-heap models of `Model/Sched.lean`, for every oracle -/
+theorem C11_binary_heap_same_ticks_as_oracle_heap {σ : Type} (env : Env σ) (ch : Nat → Nat) (n : Nat) (s0 : σ)
+    (hf : env.Future) (hd : env.ReqDet)
+    (t : Nat) (h1 : t < (Vm.runH stdHeap env n s0).ticks.length) (h2 : t < (Vm.run env ch n s0).ticks.length) :
+    ((Vm.runH stdHeap env n s0).ticks[t]).execd.Perm ((Vm.run env ch n s0).ticks[t]).execd := by
+  obtain ⟨_, _, _, i1, _⟩ := Vm.runH_spec stdHeap_spec env n s0 hf
+  obtain ⟨_, _, _, i2, _⟩ := Vm.run_spec env ch n s0 hf
+  exact Ideal.same_ticks hd i1 i2 (List.Perm.refl _) t h1 h2
+
+theorem C11_vm_self_reschedule_chain_on_binary_heap {σ : Type} (env : Env σ) (n : Nat) (s0 : σ) (hf : env.Future)
+    (a t0 p : Nat) (hp : 1 ≤ p) (h0 : (⟨t0, a⟩ : Task) ∈ (env.global s0).2)
+    (hre : ∀ now s, (⟨now + p, a⟩ : Task) ∈ (env.task a now s).2)
+    (k : Nat) (hk : t0 + k * p < (Vm.runH stdHeap env n s0).ticks.length) :
+    (⟨t0 + k * p, a⟩ : Task) ∈ ((Vm.runH stdHeap env n s0).ticks[t0 + k * p]).execd := by
+  obtain ⟨_, _, _, idl, _⟩ := Vm.runH_spec stdHeap_spec env n s0 hf
+  exact idl.chain a t0 p hp h0 hre k hk
+
+theorem C11_wasm_self_reschedule_chain_on_binary_heap {σ : Type} (env : Env σ) (n : Nat) (s0 : σ) (hf : env.Future)
+    (a t0 p : Nat) (hp : 1 ≤ p) (h0 : (⟨t0, a⟩ : Task) ∈ (env.global s0).2)
+    (hre : ∀ now s, (⟨now + p, a⟩ : Task) ∈ (env.task a now s).2)
+    (k : Nat) (hk : t0 + k * p < (W.runH stdHeap env n s0).ticks.length) :
+    (⟨t0 + k * p, a⟩ : Task) ∈ ((W.runH stdHeap env n s0).ticks[t0 + k * p]).execd := by
+  obtain ⟨_, _, _, _, idl, _⟩ := W.runH_spec stdHeap_spec env n s0 hf
+  exact idl.chain a t0 p hp h0 hre k hk
+
+/-- `C11_wasm_queue_partial` with the real heap inside -/
+theorem C11_wasm_queue_partial_on_binary_heap {σ : Type} (env : Env σ) (n : Nat) (s0 : σ) (hf : env.Future) :
+    (W.runH stdHeap env n s0).final.isSome ∧ (W.runH stdHeap env n s0).ticks.length = n ∧
+    Ideal env 0 (env.global s0).2 (env.global s0).1 (W.runH stdHeap env n s0).ticks := by
+  obtain ⟨st', e, l, _, idl, _⟩ := W.runH_spec stdHeap_spec env n s0 hf
+  exact ⟨by simp [e], l, idl⟩
+
+/-- `C11_wasm_mem_slot_consistent_partial` for `M.run stdHeap` — the model the driver runs against the real WASM
+runtime: closure memory AND the literal `BinaryHeap` port, no hypothesis on the heap left. -/
+theorem C11_wasm_mem_slot_consistent_on_binary_heap {σ : Type} (env : Env σ) (slot : Nat → Nat) (n : Nat) (s0 : σ)
+    (hf : env.Future) (hc : env.SlotConsistent slot) :
+    (M.run stdHeap env n s0).final.isSome ∧ (M.run stdHeap env n s0).ticks.length = n ∧
+    Ideal env 0 (env.global s0).2 (env.global s0).1 (M.run stdHeap env n s0).ticks ∧
+    ∀ (t : Nat) (ht : t < (M.run stdHeap env n s0).ticks.length),
+      ((M.run stdHeap env n s0).ticks[t]).execd.Perm
+        ((issuedBefore (M.run stdHeap env n s0).greqs (M.run stdHeap env n s0).ticks t).filter
+          (fun x => decide (x.when = t))) := by
+  obtain ⟨st', e, l, g, idl⟩ := M.run_spec stdHeap_spec hf hc n s0
+  refine ⟨by simp [e], l, idl, ?_⟩
+  intro t ht
+  have := idl.onTime t ht
+  simpa [issuedBefore, g] using this
+
+/-- the F17 witness with the real heap inside: same wrong executions (no ties in that run) -/
+theorem C11_wasm_closure_reuse_counterexample_on_binary_heap :
+    (M.run stdHeap f17Env 6 ()).ticks.map (·.execd) = [[], [⟨1, 2⟩], [⟨2, 3⟩], [⟨3, 1⟩], [⟨4, 1⟩], []] ∧
+    (W.runH stdHeap f17Env 6 ()).ticks.map (·.execd) = [[], [⟨1, 2⟩], [⟨2, 3⟩], [⟨3, 0⟩], [⟨4, 1⟩], []] ∧
+    (Vm.runH stdHeap f17Env 6 ()).ticks.map (·.execd) = [[], [⟨1, 2⟩], [⟨2, 3⟩], [⟨3, 0⟩], [⟨4, 1⟩], []] := by
+  decide +kernel
+
+/-- non-vacuity of the `…_on_binary_heap` family: `counterEnv` (premises shown below) runs, one execution per sample -/
+example : (Vm.runH stdHeap counterEnv 5 0).ticks.map (·.execd.length) = [0, 1, 1, 1, 1] := by decide +kernel
+example : (W.runH stdHeap counterEnv 5 0).ticks.map (·.execd.length) = [0, 1, 1, 1, 1] := by decide +kernel
+example : (M.run stdHeap counterEnv 5 0).ticks.map (·.execd.length) = [0, 1, 1, 1, 1] := by decide +kernel
 
 
 /-! ## Non-vacuity -/
